@@ -96,7 +96,12 @@ func encResults(res []lua.LValue, bad string) string {
 	}
 	parts := make([]string, len(res))
 	for i, v := range res {
-		parts[i] = encVal(v, nil)
+		// a number result goes through c15Num, not encNum: encNum renders -0 as `i0` and so drops the sign of a zero
+		if n, ok := v.(lua.LNumber); ok {
+			parts[i] = c15Num(float64(n))
+		} else {
+			parts[i] = encVal(v, nil)
+		}
 	}
 	return strings.Join(parts, " ")
 }
@@ -487,6 +492,13 @@ func execC15(ops []Op) []string {
 			out = append(out, req+" => "+encResults(res, bad))
 		case "gochk":
 			out = append(out, req+" => "+w.goChk(a[1], a[2:]))
+		case "sp":
+			for _, t := range a[2:] {
+				if t[0] == 's' {
+					keep([]lua.LValue{c15Dec(t)})
+				}
+			}
+			out = append(out, req+" => "+w.execSp(a))
 		default:
 			panic("bad op " + name)
 		}
@@ -1069,7 +1081,13 @@ func runC15(run *Run) {
 		"against a hand-written C printf oracle in Go AND (integer, char, string conversions) against the Lean C rendering; (5) math functions on a " +
 		"float grid (signed zeros, subnormals, huge, NaN, infinities, non-integral exponents, numeric strings) against Go's math (exact or <= 1 ulp) " +
 		"with the contracts checked in Go (max/min bound all arguments and are one of them, fmod sign/magnitude, modf/frexp recompose exactly), " +
-		"max/min/fmod/mod on exact integers and random(m,n)/random(n) draws in Lean. distinct = distinct (function, length, index-class pair) / " +
+		"max/min/fmod/mod on exact integers and random(m,n)/random(n) draws in Lean; (6) bounded-exhaustive SPECIAL OPERANDS: every one-argument math " +
+		"function x {+-0, +-1, +-2, +-3, +-6, +-0.5, +-2.5, +-inf, NaN, +-2^53, +-2^63, smallest/largest subnormal, smallest normal, largest finite}, " +
+		"every two-argument function (fmod, pow, atan2, ldexp, math.mod and the % operator) x every PAIR of them, max/min x every pair and every " +
+		"triple over {+-0, +-1, +-inf, NaN}, the same operands spelled as numeric strings (argument coercion, tonumber) and through string.format; " +
+		"every number travels as its IEEE bit pattern and is compared BIT-EXACTLY (sign of zero; NaNs as a class) with the Lean Model (the " +
+		"wrappers over exact IEEE-754 arithmetic on bit patterns; for transcendental functions Go's own function) and with the C99 Annex F / " +
+		"Lua 5.1 definitions in Lean (exact for floor ceil fabs sqrt fmod modf frexp ldexp %, special-value tables + sign/kind for the rest). distinct = distinct (function, length, index-class pair) / " +
 		"(verb, flag set, width?, precision?) / (math function) shapes exercised"
 	run.Assume = []string{
 		"Go int is modelled as unbounded Int in the string functions: positions stay below 2^62 in absolute value",
@@ -1079,8 +1097,10 @@ func runC15(run *Run) {
 		"%s arguments contain no NUL (Lua 5.1 itself truncates short strings there)",
 		"IEEE results of floor/ceil/sqrt/exp/log/pow/trig are Go's math (trusted); only the wrappers' argument order, arity and coercion are modelled",
 		"the harness is built against a tree with fixes/C15-*.diff applied (see notes/C15.md)",
+		"special operands: where C99 / the manual fix nothing the Spec compares nothing (frexp's exponent of inf/NaN, ldexp with a non-integral or out-of-int-range exponent, max/min with a NaN argument, accuracy of transcendental functions beyond sign, kind and range); the Model comparison is bit-exact everywhere",
 	}
 	run.Trusted = append(run.Trusted, "Go strconv.FormatFloat/FormatUint rounding and digits", "Go math as IEEE oracle", "math/big for the deg/rad reference",
+		"Go float64 operators and math.Floor/Ceil/Abs/Sqrt/Mod/Modf/Frexp/Ldexp = the IEEE-754 operations of lean/GLua/Spec/MathIEEE.lean (re-checked on every special-operand request: the Go reference must equal the Lean result bit for bit)",
 		"tools/extract extra.go: Go-subset → Lean translation of luaIndex2StringIndex, intMin, intMax")
 	root := NewRng(uint64(run.Seed))
 	var cases []Case
@@ -1126,11 +1146,29 @@ func runC15(run *Run) {
 		cases = append(cases, chunk(ops, 1, 250000)...)
 	}
 	cases = append(cases, chunk(genC15Format(run, root.Fork(2), nFmt), 1, 400000)...)
-	cases = append(cases, chunk(genC15Math(run, root.Fork(3), nMath), 50, 600000)...)
+	{
+		// math.mod on exact integers can fall into the known-finding class C15-modulo-ieee-specials (a zero remainder of
+		// a negative dividend): those ops travel one per case, like every other finding-prone op
+		var bulk, single []Op
+		for _, op := range genC15Math(run, root.Fork(3), nMath) {
+			if op.Args[0] == "mod" {
+				single = append(single, op)
+			} else {
+				bulk = append(bulk, op)
+			}
+		}
+		cases = append(cases, chunk(bulk, 50, 600000)...)
+		cases = append(cases, chunk(single, 1, 650000)...)
+	}
+	// (6) special operands (signed zeros, infinities, NaN, subnormals, 2^53, 2^63): bounded-exhaustive, bit-exact
+	cases = append(cases, genC15Special(run, root.Fork(5), thorough)...)
+	cases = append(cases, genC15SpecialFormat(thorough)...)
 	runCases(run, cases, execC15, classifyTagged)
 	if os.Getenv("C15_DEBUG") != "" {
-		for i, f := range run.Failures {
-			if i < 400 && f.Finding == "" {
+		n := 0
+		for _, f := range run.Failures {
+			if n < 400 && f.Finding == "" {
+				n++
 				fmt.Printf("DEBUG %s case=%d\n  %s\n  -> %s\n", f.Kind, f.CaseIdx, f.Line, f.Reply)
 			}
 		}
